@@ -61,8 +61,8 @@ def _byte_expr(p: Value):
         enc = p.args[1] if len(p.args) > 1 else None
         if enc is not None and isinstance(enc, C) and enc.v.lower().replace("_", "-") in ("latin-1", "latin1", "iso-8859-1"):
             return p.args[0].args[0]
-    if isinstance(p, App) and p.op == "pack" and p.args[0] in (C("!B"), C("B"), C(">B")):
-        return p.args[1]
+    if isinstance(p, App) and p.op in ("be", "le") and p.args[1] == C(1):
+        return p.args[0]
     if isinstance(p, App) and p.op == "bytes" and len(p.args) == 1:
         return p.args[0]
     return None
@@ -97,12 +97,12 @@ def r1(ctx):
             if b2 is None:
                 raise AnalysisError(f"second header byte has an unexpected shape: {parts[1]!r}")
             lay, const = writer_layout(b2)
-            ext = parts[2] if len(parts) > 2 and isinstance(parts[2], App) and parts[2].op == "pack" else None
+            ext = parts[2] if len(parts) > 2 and isinstance(parts[2], App) and parts[2].op in ("be", "le", "pack") else None
             if repr(L) in lay and lay[repr(L)] == 0 and ext is None and (const & 0x7F) == 0:
                 kind = "7bit"
-            elif ext is not None and (const & 0x7F) == 0x7E and ext.args[0] in (C("!H"), C(">H")) and ext.args[1].key() == L.key():
+            elif ext is not None and (const & 0x7F) == 0x7E and ext.op == "be" and ext.args[1] == C(2) and ext.args[0].key() == L.key():
                 kind = "16bit"
-            elif ext is not None and (const & 0x7F) == 0x7F and ext.args[0] in (C("!Q"), C(">Q")) and ext.args[1].key() == L.key():
+            elif ext is not None and (const & 0x7F) == 0x7F and ext.op == "be" and ext.args[1] == C(8) and ext.args[0].key() == L.key():
                 kind = "64bit"
             else:
                 kind = f"malformed(second byte {b2!r}, extension {ext!r})"
@@ -373,39 +373,6 @@ def _len_of(I, run, v, node):
     return transfer._b_len(I, run, [v], {}, node)
 
 
-@rule("R-C01-5", min_instances=3, title="pure-Python _mask: divisor, modulus and key length agree; one byte order")
-def r5(ctx):
-    # the fallback arm in effect
-    I = Interp(ctx.index, Config())
-    env = I.module_env(I.base, "_abnf")
-    f = env.vars.get("_mask")
-    from ..values import Fn
-    if not isinstance(f, Fn):
-        raise AnalysisError("anchor vanished: _abnf._mask")
-    node = ctx.index.func(f.qualname).node
-    loc = ctx.index.loc(node)
-    consts_div, consts_mod, orders = [], [], []
-    for n in ast.walk(node):
-        if isinstance(n, ast.BinOp) and isinstance(n.op, ast.FloorDiv) and isinstance(n.right, ast.Constant):
-            consts_div.append(n.right.value)
-        if isinstance(n, ast.BinOp) and isinstance(n.op, ast.Mod) and isinstance(n.right, ast.Constant):
-            consts_mod.append(n.right.value)
-        if isinstance(n, ast.Call) and isinstance(n.func, ast.Attribute) and n.func.attr in ("from_bytes", "to_bytes"):
-            if len(n.args) >= 2:
-                orders.append(text(n.args[1]))
-            else:
-                orders.append(next((text(k.value) for k in n.keywords if k.arg == "byteorder"), "<default>"))
-    ctx.ob(f"{f.qualname}:key-period", consts_div == [4] and consts_mod == [4],
-           f"mask repeated datalen // {consts_div} times plus first datalen % {consts_mod} bytes; key length requested is 4", loc)
-    ctx.ob(f"{f.qualname}:one-byte-order", len(orders) >= 3 and len(set(orders)) == 1,
-           f"byte orders used by the int conversions: {orders}", loc)
-    # output length is the data length
-    tb = [n for n in ast.walk(node) if isinstance(n, ast.Call) and isinstance(n.func, ast.Attribute) and n.func.attr == "to_bytes"]
-    lens = [n for n in ast.walk(node) if isinstance(n, ast.Assign) and isinstance(n.value, ast.Call) and text(n.value.func) == "len"]
-    ok = bool(tb) and bool(lens) and text(tb[0].args[0]) == text(lens[0].targets[0]) and text(lens[0].value.args[0]) == node.args.args[1].arg
-    ctx.ob(f"{f.qualname}:output-length", ok, f"to_bytes({text(tb[0].args[0]) if tb else '?'}) with {text(lens[0]) if lens else '?'}", loc)
-
-
 @rule("R-C01-6", min_instances=2, title="send_frame returns the number of frame bytes (also under short writes); send returns send_frame's result")
 def r6(ctx):
     from .c12 import _send_frame_paths
@@ -440,20 +407,41 @@ def r6(ctx):
                f"send returns {o.value!r}", ctx.index.loc(ctx.index.func("_core:WebSocket.send").node))
 
 
-@rule("R-C01-7", min_instances=3, title="single send path: transport writes only via send_frame -> _send")
+@rule("R-C01-7", min_instances=3, title="single send path: every call chain that reaches the transport writer _send passes through send_frame")
 def r7(ctx):
     idx = ctx.index
-    # who calls WebSocket._send
-    callers = []
+    W = "_core:WebSocket"
+    # uses (calls or method values) of self.<m> inside the class, per enclosing method
+    uses = {}
     for q, fi in idx.functions.items():
         if fi.module == "_wsdump":
             continue
-        for c in idx.calls_in(q):
-            if isinstance(c.func, ast.Attribute) and c.func.attr == "_send" and text(c.func.value) == "self":
-                callers.append((q, c))
-    okc = bool(callers) and all(q == "_core:WebSocket.send_frame" for q, _ in callers)
-    ctx.ob("_core:WebSocket._send:callers", okc, f"called from {sorted({q for q, _ in callers})}",
-           idx.loc(callers[0][1]) if callers else "")
+        for n in idx.own_nodes(fi.node):
+            if isinstance(n, ast.Attribute) and isinstance(n.ctx, ast.Load) and text(n.value) == "self":
+                uses.setdefault(n.attr, []).append((q, n))
+    idx.func(f"{W}._send", "R-C01-7")
+    # walk callers upwards from _send; a chain is fine when it hits send_frame, and may pass only through private helpers of WebSocket
+    bad = []
+    seen = set()
+    work = ["_send"]
+    chains = 0
+    while work:
+        m = work.pop()
+        if m in seen:
+            continue
+        seen.add(m)
+        for q, n in uses.get(m, []):
+            chains += 1
+            if q == f"{W}.send_frame":
+                continue
+            name = q.rsplit(".", 1)[-1]
+            if q.startswith(W + ".") and name.startswith("_") and not name.startswith("__") and uses.get(name):
+                work.append(name)  # a private helper: its own callers are examined
+                continue
+            bad.append((q, n))
+    ctx.ob("_core:WebSocket._send:callers", chains > 0 and not bad,
+           f"{chains} use(s) of self._send / its private wrappers, all under send_frame" if not bad else
+           f"{bad[0][0]} reaches the transport writer without going through send_frame", idx.loc(bad[0][1]) if bad else "")
     # direct transport writes inside _core.py
     direct = []
     for q, fi in idx.functions.items():
@@ -472,22 +460,99 @@ def r7(ctx):
     # every public sender reaches the transport only through send_frame (checked semantically in R-C01-3)
 
 
-@rule("R-C01-8", min_instances=2, title="trace blocks are pure: tracing on/off cannot change the wire or the state")
+_LOGGISH = ("trace", "debug", "error", "warning", "info", "dump", "__str__", "repr", "format", "isEnabledFor")
+
+
+def _observable(I, o, roots):
+    """What a caller / the peer can see of a path: result, non-logging effects in order, final fields of the objects involved."""
+    effs = tuple((e.name, tuple(repr(I.resolve(o.run, a)) for a in e.args)) for e in o.effects
+                 if not any(w in e.name for w in _LOGGISH) and not e.name.startswith("with."))
+    val = repr(I.resolve(o.run, o.value)) if o.value is not None else None
+    heap = []
+    for r in roots(o):
+        if isinstance(r, Ref):
+            c = o.run.cell(r)
+            for k in sorted(getattr(c, "fields", {})):
+                v = c.fields[k]
+                heap.append((k, repr(I.resolve(o.run, v)) if not isinstance(v, Ref) else "@"))
+    return (o.kind, o.exc_class, val, effs, tuple(heap))
+
+
+@rule("R-C01-8", min_instances=2, title="tracing is pure: with trace logging on, send_frame and recv_data_frame have the same results, writes and state as with it off")
 def r8(ctx):
     idx = ctx.index
-    n = 0
-    for q in ("_core:WebSocket.send_frame", "_core:WebSocket.recv_data_frame"):
-        fn = idx.func(q, "R-C01-8").node
-        for node in idx.own_nodes(fn):
-            if isinstance(node, ast.If) and "isEnabledForTrace" in text(node.test):
-                n += 1
-                stores = [s for b in node.body for s in ast.walk(b) if isinstance(s, (ast.Assign, ast.AugAssign, ast.AnnAssign, ast.NamedExpr, ast.Delete))]
-                calls = [text(c.func) for b in node.body for c in ast.walk(b) if isinstance(c, ast.Call)]
-                impure = [c for c in calls if c.split(".")[-1] not in ("trace", "repr", "__str__", "format", "debug", "str", "dump", "hex")]
-                ctx.ob(f"{q}:trace-block:{n}", not stores and not impure,
-                       f"calls {calls}" + ("" if not stores else f"; stores {[text(s) for s in stores]}"), idx.loc(node))
-    if n < 2:
-        raise AnalysisError(f"only {n} trace blocks found on the send/receive path")
+    W = "_core:WebSocket"
+
+    def world(trace_on):
+        stubs = dict(BASE_STUBS)
+        stubs["_abnf:ABNF.format"] = lambda I, run, a, k, n: (run.effect("format", (), node=n), Sym("wire", "bytes"))[1]
+        stubs["_abnf:ABNF.__str__"] = lambda I, run, a, k, n: Sym("frame_text", "str")
+        stubs["_logging:trace"] = lambda I, run, a, k, n: (run.effect("trace", a, node=n), NONE)[1]
+        stubs["_logging:isEnabledForTrace"] = lambda I, run, a, k, n: TRUE if trace_on else FALSE
+
+        def _send(I, run, args, kwargs, node):
+            k = len([e for e in run.effects if e.name == "_send"])
+            l = isym(run, f"accepted{k}", 0, INF)
+            run.effect("_send", args[1:], kwargs, node=node, ret=l)
+            return l
+
+        stubs[f"{W}._send"] = _send
+
+        def rf(I, run, args, kwargs, node):
+            run.effect("recv_frame", (), node=node)
+            return new_obj(run, "_abnf:ABNF", "frame", opcode=isym(run, "op", 0, 15), data=Sym("fd", "bytes"), fin=isym(run, "fin", 0, 1))
+
+        stubs[f"{W}.recv_frame"] = rf
+        stubs[f"{W}.pong"] = lambda I, run, a, k, n: (run.effect("pong", a[1:], node=n), NONE)[1]
+        stubs[f"{W}.send_close"] = lambda I, run, a, k, n: (run.effect("send_close", a[1:], node=n), NONE)[1]
+        stubs["_abnf:continuous_frame.validate"] = lambda I, run, a, k, n: (run.effect("cont.validate", a[1:], node=n), NONE)[1]
+        stubs["_abnf:continuous_frame.add"] = lambda I, run, a, k, n: (run.effect("cont.add", a[1:], node=n), NONE)[1]
+        stubs["_abnf:continuous_frame.is_fire"] = lambda I, run, a, k, n: Sym("fire", "bool")
+        stubs["_abnf:continuous_frame.extract"] = lambda I, run, a, k, n: Tup((Sym("xop", "int"), a[1]))
+        cfg = Config(stubs=stubs, loop_unroll=2, single_iteration={f"{W}.recv_data_frame"})
+        return Interp(idx, cfg)
+
+    def send_body(I):
+        def body(run):
+            ws = mk_websocket(I, run)
+            run.memo["@ws"] = ws
+            run.assume_range(App("len", (Sym("wire", "bytes"),), "int"), 2, INF)
+            fr = new_obj(run, "_abnf:ABNF", "frame", get_mask_key=Ext("os.urandom"))
+            run.memo["@fr"] = fr
+            return I.call(run, I.getattr(run, ws, "send_frame", None), [fr], {}, None)
+        return body
+
+    def recv_body(I):
+        def body(run):
+            ws = mk_websocket(I, run)
+            run.memo["@ws"] = ws
+            return I.call(run, I.getattr(run, ws, "recv_data_frame", None), [Sym("control_frame", "bool")], {}, None)
+        return body
+
+    roots = lambda o: [o.run.memo.get("@ws"), o.run.memo.get("@fr")]
+    for q, mk in ((f"{W}.send_frame", send_body), (f"{W}.recv_data_frame", recv_body)):
+        idx.func(q, "R-C01-8")
+        sigs = {}
+        traced = 0
+        for on in (False, True):
+            I = world(on)
+            outs = ctx.count_paths(I.explore(mk(I)))
+            if on:
+                traced = sum(1 for o in outs for e in o.effects if e.name == "trace")
+            sigs[on] = {}
+            for o in outs:
+                if o.kind == "cutoff":
+                    continue
+                sigs[on].setdefault(_observable(I, o, roots), o)
+        if not traced:
+            raise AnalysisError(f"{q}: no trace call on any path with tracing enabled -- the trace blocks were not found")
+        only_on = [sigs[True][k] for k in sigs[True] if k not in sigs[False]]
+        only_off = [sigs[False][k] for k in sigs[False] if k not in sigs[True]]
+        ok = not only_on and not only_off
+        w = (only_on or only_off or [None])[0]
+        ctx.ob(f"{q}:trace-on-equals-trace-off", ok, f"{len(sigs[False])} observable behaviours, identical with tracing on" if ok else
+               f"with trace logging {'on' if only_on else 'off'} there is a behaviour (result / transport writes / state) that the other setting does not have: "
+               f"{_observable(world(False), w, roots)[:4]!r:.300}", idx.loc(idx.func(q).node), {"path": path_text(w)} if w else None)
 
 
 @rule("R-C01-9", min_instances=20, title="pure-Python masking folded on constants: every length 0..23 (all residues mod 4, multi-word carries), bytes and str key/data forms, equals cyclic XOR")
